@@ -34,6 +34,8 @@ package base
 
 //@ func (*ti/base.T).GetType
 //@   safe
+//@   ensures[C09] t != nil ==> result == t.tType
+//@   ensures[C09] t == nil ==> result == NIL
 
 //@ func (*ti/base.T).HasDefault
 //@   safe
@@ -242,6 +244,7 @@ package base
 
 //@ func ti/base.MakeAnyArray
 //@   safe
+//@   ensures[C09] fresh(result) && result.tType == ARRAY && len(result.variants) == 0
 
 //@ func ti/base.MakeAnyFloat
 //@   safe
@@ -341,6 +344,7 @@ package base
 
 //@ func ti/base.MakeNil
 //@   safe
+//@   ensures[C09] fresh(result) && result.tType == NIL
 
 //@ func ti/base.MakeObject
 //@   safe
@@ -380,15 +384,19 @@ package base
 
 //@ func ti/base.MakeUnion
 //@   safe
+//@   ensures[C09] fresh(result) && result.tType == UNION
 
 //@ func ti/base.MakeUnknown
 //@   safe
 
 //@ func ti/base.MakeUntyped
 //@   safe
+//@   ensures[C09] fresh(result) && result.tType == UNTYPED
 
 //@ func ti/base.NewT
 //@   safe
+//@   # C09: the type factories hand out objects nobody else holds, of the requested kind
+//@   ensures[C09] fresh(result) && result.tType == types && result.objectClass == objectClass && len(result.variants) == 0
 
 //@ func ti/base.TypeToStringForSignature
 //@   safe
@@ -493,3 +501,7 @@ package base
 //@   # C07: a class-method lookup consults class-method keys only (an instance method of Object does
 //@   # not make `Klass.inspect` a defined class method)
 //@   callsite[C07] methodTFrameKey false
+
+// C09: growing a type's variant list leaves its kind alone
+//@ func (*ti/base.T).AppendArrayVariant
+//@   ensures[C09] whole(t) ==> t.tType == old(t.tType)
